@@ -7,7 +7,7 @@ Say(o, clause, sig) == PrintT(ToJson(<<"VIOL", "C10", clause, o.k, sig>>))
 C(o, ok, clause, sig) == IF ok THEN TRUE ELSE Say(o, clause, sig)
 Base(o) == <<o.sub, IF o.ndocs = 1 THEN "one-doc" ELSE "several-docs">>
 SetOfSeq(f) == [x \in DOMAIN f |-> SeqRange(f[x])]
-G(o) == [o.g EXCEPT !.hubs = SeqRange(o.g.hubs), !.types = SetOfSeq(o.g.types), !.kids = SetOfSeq(o.g.kids),
+G(o) == [o.g EXCEPT !.hubs = SeqRange(o.g.hubs), !.repo = SetOfSeq(o.g.repo), !.hubterms = SeqRange(o.g.hubterms), !.types = SetOfSeq(o.g.types), !.kids = SetOfSeq(o.g.kids),
                    !.plist = SetOfSeq(o.g.plist), !.subclassof = SetOfSeq(o.g.subclassof)]
 Check(i) == LET o == Obs[i] IN
    IF o.t = "graph" THEN
@@ -17,11 +17,14 @@ Check(i) == LET o == Obs[i] IN
             /\ C(o, OneNodeEach(o.w, o.docs, g), "OneNodePerObject", <<Base(o)>>)
             /\ C(o, TypesOK(o.w, o.docs, g, o.sub # "off"), "TypedAsItsClass", <<Base(o)>>)
             /\ C(o, AttrsOK(o.w, o.docs, g), "ExactlyTheSetAttributes", <<Base(o), AttrMismatch(o.w, o.docs, g)>>)
+            /\ C(o, RepoOK(o.w, o.docs, g), "ExactlyTheSetAttributes", <<Base(o), {"repository"}>>)
             /\ C(o, ChildrenOK(o.w, o.docs, g), "Containment", <<Base(o)>>)
             /\ C(o, ValuesOK(o.w, o.docs, g), "ValuesAreAnOrderedSequence", <<Base(o)>>))
    ELSE
       C(o, o.out = "ok" /\ ImportOK(o.w, o.docs, o.r, o.imp), "ImportsBackUnchanged",
-        <<o.fmt, o.entry, o.out, o.exc, IF o.out = "ok" THEN ImportMismatch(o.w, o.docs, o.r, o.imp) ELSE {}>>)
+        <<o.fmt, o.entry, o.out, o.exc, IF o.out = "ok" THEN ImportMismatch(o.w, o.docs, o.r, o.imp) ELSE {},
+          \* classification only: the import agrees once floats are compared to 5 significant digits
+          IF o.digits_only THEN "float-digits-only" ELSE "other">>)
 JInit == l = 1
 JNext == l <= Len(Obs) /\ (Check(l) = TRUE) /\ l' = l + 1
 JSpec == JInit /\ [][JNext]_l
